@@ -255,10 +255,14 @@ def run(ctx, prop, parts=("r", "rw")):
         if v.status == "skip":
             continue
         if v.first() is not None:
-            k, tag, tx = v.first()
-            cat = abslean.TAG_CAT.get(tag, tag)
-            if cat in allowed or name.startswith("qrw-"):
-                prob = (start + k, tag, "Lean predicate Sf.Abs.check: clause `%s` fails: %s" % (tag, tx.strip()))
+            # the first failing clause this property speaks about (a position moved by a query may show first as a short count —
+            # C05's clause — and on the next line as a wrong position probe or wrong data — C06's)
+            for (k, tag, tx) in v.fails:
+                if abslean.TAG_CAT.get(tag, tag) in allowed or name.startswith("qrw-"):
+                    first = v.first()
+                    prob = (start + k, tag, "Lean predicate Sf.Abs.check: clause `%s` fails: %s%s" % (tag, tx.strip(),
+                            "" if first[0] == k else " (first failing line of the history: %d, clause `%s`)" % (start + first[0], first[1])))
+                    break
         elif njudged < nlines:
             prob = (start + njudged, None, "transcript ends early (the call did not return / the process died)")
             if "crash" not in allowed and not name.startswith("qrw-"):
